@@ -131,6 +131,11 @@ var viaKinds = []string{"", "", "", "", "copy", "copy", "string", "bytes"}
 // viaWrite hands p to w in the given way and reports (bytes taken, error) as
 // Write would.
 func viaWrite(w io.Writer, p []byte, via string) (int, error) {
+	if len(p) == 0 {
+		// the helpers make no call at all for an empty payload; the histories
+		// mean a Write call
+		return w.Write(p)
+	}
 	switch via {
 	case "copy":
 		// a source offering only Read: io.Copy uses w.ReadFrom when w
